@@ -242,4 +242,23 @@ CHECKS = {
             dict(test="TestC12Race", unit="race", kind="rapid", checks=(160, 3200), shards=(8, 16), race=True),
         ],
     ),
+    "C15": dict(
+        level="exploration",
+        technique="property-based testing (rapid): generated whitelists x client source addresses, and generated arrival/departure schedules against a queue model of the client limit; in-process wrappers composed as in cmd/ and the real binary with flags",
+        rule="whitelist: specifications (single, range, CIDR /8../32, netmask) over 127.0.0.0/8 and ::1 with client sockets bound to source addresses at both borders +-1, random others and "
+             "127.0.0.1; a client inside the set must get its 33-byte STAT reply and its MKDIR must take effect, a client outside must receive zero bytes, be closed by the server and its "
+             "MKDIR must never appear. limit: N in 1..8, schedules of up to 12N arrive/depart events over up to 4N clients, 1/5 of the arrivals from non-whitelisted addresses; after every "
+             "step the clients the FIFO model says hold a slot must have their reply (deadline 5 s, a miss is re-run once), rejected ones must be closed without a byte, waiting ones must "
+             "have received nothing (60 ms silence window; any byte is a violation); finally all leave and N fresh clients must all be served within 6 s. units *-bin run the same against "
+             "the real binary (--client-whitelist, --max-clients). non-trivial = a client address within 1 of a whitelist border / a schedule where a waiting client is later served or a "
+             "rejected arrival happens while the slots are full; distinct by (target, spec, address) / (target, N, schedule)",
+        assumptions=["loopback source addresses 127.x.y.z and ::1 stand for arbitrary peers", "silence is observed for a fixed window; liveness (served after a slot is freed) is a bounded-time check with a generous deadline",
+                     "the in-process units compose LimitListener and FilterListener in the same order as cmd/ps3netsrv-go/server.go; the *-bin units exercise the real wiring"],
+        units=[
+            dict(test="TestC15Whitelist", shrink_s=4, unit="whitelist", kind="rapid", checks=(160, 4000), shards=(8, 16)),
+            dict(test="TestC15WhitelistBin", shrink_s=4, unit="whitelist-bin", kind="rapid", checks=(24, 480), shards=(8, 16), bin=True),
+            dict(test="TestC15Limit", shrink_s=4, unit="limit", kind="rapid", checks=(64, 1600), shards=(16, 16)),
+            dict(test="TestC15LimitBin", shrink_s=4, unit="limit-bin", kind="rapid", checks=(16, 320), shards=(8, 16), bin=True),
+        ],
+    ),
 }
